@@ -6,16 +6,77 @@ from harness import core
 from harness.core import Outcome
 
 ID = "C10"
-LEAN_TARGETS = []
-THEOREMS = []
-LEVEL_TEXT = ""
-LEVEL_NOTE = ""
-TECHNIQUE = ""
-TRUSTED = []
-ASSUMPTIONS = []
-NOT_COVERED = []
-OPEN = []
-RULE = ""
+LEAN_TARGETS = ["BeyondVerif.Props.C10", "BeyondVerif.Witness.C10"]
+THEOREMS = [
+    "BeyondVerif.C10.bisect_terminates",
+    "BeyondVerif.C10.event_between",
+    "BeyondVerif.C10.event_between_backward",
+    "BeyondVerif.C10.event_sharp",
+    "BeyondVerif.C10.event_other_side",
+    "BeyondVerif.C10.raw_event_spec",
+    "BeyondVerif.C10.event_iff_sign_change",
+    "BeyondVerif.C10.event_unique",
+    "BeyondVerif.C10.listen_event_between",
+    "BeyondVerif.C10.listen_event_between_backward",
+    "BeyondVerif.C10.listen_event_sharp",
+    "BeyondVerif.C10.listenU_times",
+    "BeyondVerif.C10.listen_exact",
+    "BeyondVerif.C10.stream_eq_blocks",
+    "BeyondVerif.C10.reuse_clean",
+    "BeyondVerif.C10.stream_chronological",
+    "BeyondVerif.C10.label_prev_compare",
+    "BeyondVerif.C10.label_light",
+    "BeyondVerif.C10.guards_spec",
+    "BeyondVerif.Listen.bisect2_eq_wf",
+    "BeyondVerif.Listen.bisectSteps_eq_wf",
+    "BeyondVerif.C10W.backward_not_chronological",
+    "BeyondVerif.C10W.backward_apside_label",
+    "BeyondVerif.C10W.backward_light_label",
+    "BeyondVerif.C10W.exact_zero_at_sample_two_events",
+]
+LEVEL_TEXT = ("Lean theorems over a model of Speaker.listen/_bisect/Listener.check/clear and the interleaving of iter, for an arbitrary watched "
+              "quantity f : Int -> Int, arbitrary guards, listener lists and sample sequences (dates in integer microseconds, timedelta/2 as "
+              "round-half-even): an event is emitted between two samples iff the listener's guard holds and the sign of f differs (exactly one per "
+              "listener), it lies in (t_k, t_k+1], f changes sign within 1 us of it, the stream of a forward iteration is chronological, listener "
+              "history is irrelevant; _bisect terminates (well-founded definition) in <= log2 passes. Watched quantity, guard and label of every listener "
+              "class are re-translated from the Python AST on each run and the label/guard theorems re-proved against them. Exact differential "
+              "correspondence: the REAL Speaker, listener classes, AnalyticalPropagator.iter and Ephem.iter driven through stub states with integer "
+              "polynomial components vs the compiled model (dates, listeners, labels, order).")
+LEVEL_NOTE = ("agreement with closed-form Keplerian times, the conical shadow geometry and the zero elevation(-rate) at AOS/LOS/MAX is numerical: "
+              "oracle sweep on the real API only; labels of the derivative-based listeners (Node, StationSignal, Terminator) are tied to the crossing "
+              "direction by the oracle only; for backward iterations the chronological and label clauses are false of the code (known findings, "
+              "kernel-checked witnesses); model hand-written, tied by exact correspondence and by the regenerated listener tables")
+TECHNIQUE = ("Lean 4 proofs (functional induction on the bisection loop, induction over sample sequences and listener lists) about an executable "
+             "model; listener tables translated from the source AST; exact model/implementation correspondence through a stub propagator; oracle on real orbits")
+TRUSTED = [
+    "harness/props/C10.py translate_listeners: Python AST of listeners.py (`__call__`, `check`, `info` of each listener class) -> Generated/ListenSrc.lean",
+    "correspondence harness: stub orbit/station/propagator/ephemeris classes (subclasses of the real AnalyticalPropagator, Ephem, LightListener, TerminatorListener) "
+    "whose spherical components are integer polynomials of the date; exact comparison of (date in us, listener index, label) streams",
+    "CPython datetime: `timedelta / 2` rounds half to even on microseconds; `Date + timedelta` and `Date - Date` are exact on the microsecond grid within one day of the epoch used (checked by the correspondence itself)",
+]
+ASSUMPTIONS = [
+    "the model Model/Listen.lean is hand-written; it is tied to listeners.py / base.py / ephem.py by the exact correspondence run and, for the per-class quantity/guard/label, by AST translation",
+    "dates are integer microseconds: the float representation of Date (day + seconds) is assumed exact on that grid (true within the magnitudes exercised; the oracle checks real orbits with a 5 us window)",
+    "the watched quantity is a deterministic function of the date (true of every listener class; the product f(begin)*f(mid) is assumed not to underflow)",
+    "the listener objects in one `listeners` list are distinct objects (the same object listed twice never fires at its second position)",
+    "sign is three-valued as in numpy.sign: a crossing through an exact zero AT a sample date yields two events (one at the sample, one 1 us later) — witnessed in Witness/C10.lean, faithful to the code",
+]
+NOT_COVERED = [
+    "closed-form node / apsis / anomaly times, umbra/penumbra vs conical shadow geometry, zero elevation at AOS/LOS and zero elevation rate at MAX: numerical, oracle only (S)",
+    "labels of NodeListener, StationSignalListener, TerminatorListener come from a derivative component independent of the watched quantity: agreement with the crossing direction is checked by the oracle only",
+    "Date.range / DateRange (how the sample sequence is produced) belongs to C03/C08; the model takes the sample sequence as given",
+    "NumericalPropagator: its internal interpolating Ephem is the Speaker; sharpness there is not re-evaluated by the oracle (order, soundness, completeness, labels are)",
+    "TopocentricFrame.visibility filtering is checked by the oracle against an explicit iteration, not modelled in Lean",
+]
+OPEN = [
+    "stream_chronological for backward iterations is FALSE of the current code (Witness C10W.backward_not_chronological, known finding C10-backward-event-order); proved instead: "
+    "event_between_backward (every event of a backward step lies in [t_k+1, t_k)) and listenU_times (events of one step ascending)",
+    "label_matches_direction in backward iterations is false of the code for Apside/StationMask/Light (known findings, witnesses); label_prev_compare / label_light state the direction relative to the iteration",
+]
+RULE = ("correspondence: random listener lists (1-6 listeners out of 14 kinds) x random sample sequences (1 us to 100 s spacing, regular / irregular / backward, roots of the "
+        "polynomials on and off the samples) x 6 iteration modes (dates, range, Ephem dates/step/stored points) x listener history (fresh / reused / abandoned generator); "
+        "a case is non-trivial when at least one event is emitted; plus _bisect alone (result and number of propagations). "
+        "oracle: every clause as a predicate on real orbits (see samples); tolerances from the property text")
 
 US = None  # timedelta(microseconds=1), set by _setup
 
@@ -38,33 +99,31 @@ def _setup():
 _station_counter = [0]
 
 
-def make_station(rng, orb=None, mask=False):
-    """a ground station under (roughly) the ground track so that passes exist"""
-    import numpy as np
-    from beyond.frames.stations import create_station
-    _station_counter[0] += 1
-    name = f"C10S{os.getpid()}x{_station_counter[0]}"
-    if orb is not None:
-        inc = float(orb.copy(form="keplerian").i)
+def gen_station(rng, inc=None, mask=False):
+    """JSON description of a ground station under (roughly) the ground track so that passes exist"""
+    if inc is not None:
         latmax = min(inc, math.pi - inc)
         lat = math.degrees(rng.uniform(-1, 1) * min(latmax, math.radians(70)))
     else:
         lat = rng.uniform(-60, 60)
-    lon = rng.uniform(-180, 180)
     m = None
     if mask:
         k = rng.randint(3, 8)
         az = sorted(rng.uniform(0.05, 6.2) for _ in range(k)) + [2 * math.pi]
         el = [rng.uniform(0.0, 0.35) for _ in range(k + 1)]
         m = [az, el]
-    return create_station(name, (lat, lon, rng.uniform(0, 2000)), mask=m)
+    return {"latlonalt": [lat, rng.uniform(-180, 180), rng.uniform(0, 2000)], "mask": m}
 
 
-def make_orbit(rng, kind):
-    """random Keplerian orbit of the given class; returns (Orbit, class name)"""
-    import numpy as np
-    from beyond.dates import Date
-    from beyond.orbits import Orbit
+def build_station(st):
+    from beyond.frames.stations import create_station
+    _station_counter[0] += 1
+    name = f"C10S{os.getpid()}x{_station_counter[0]}"
+    return create_station(name, tuple(st["latlonalt"]), mask=st["mask"])
+
+
+def gen_orbit(rng, kind):
+    """JSON description of a random Keplerian orbit of the given class"""
     Re = 6378136.3
     if kind == "leo":
         rp = Re + rng.uniform(300e3, 1200e3)
@@ -88,10 +147,19 @@ def make_orbit(rng, kind):
         inc = rng.uniform(62, 64.5)
         argp = rng.uniform(260, 290)
     a = rp / (1 - e)
-    date = Date(2015 + rng.randrange(8), rng.randint(1, 12), rng.randint(1, 28), rng.randrange(24), rng.randrange(60), rng.randrange(60), rng.randrange(10**6))
-    orb = Orbit([a, e, math.radians(inc), math.radians(rng.uniform(0, 360)), math.radians(argp), math.radians(rng.uniform(0, 360))],
-                date, "keplerian", "EME2000", "Kepler")
-    return orb
+    return {"class": kind,
+            "kep": [a, e, math.radians(inc), math.radians(rng.uniform(0, 360)), math.radians(argp), math.radians(rng.uniform(0, 360))],
+            "epoch": [2015 + rng.randrange(8), rng.randint(1, 12), rng.randint(1, 28), rng.randrange(24), rng.randrange(60), rng.randrange(60), rng.randrange(10**6)]}
+
+
+def build_orbit(o):
+    from beyond.dates import Date
+    from beyond.orbits import Orbit
+    return Orbit(list(o["kep"]), Date(*o["epoch"]), "keplerian", "EME2000", "Kepler")
+
+
+def kep_period(o):
+    return 2 * math.pi * math.sqrt(o["kep"][0] ** 3 / 3.986004415e14)
 
 
 def period(orb):
@@ -149,6 +217,17 @@ def up_label(L):
     return None
 
 
+def label_rule(L):
+    """how `info` decides between the two labels: from the value at the event state, by comparison with listener.prev,
+    or from a separate derivative component"""
+    from beyond.propagators import listeners as LS
+    if isinstance(L, LS.LightListener):
+        return "value"
+    if isinstance(L, (LS.ApsideListener, LS.StationMaskListener)):
+        return "prev-compare"
+    return "derivative"
+
+
 def describe(orb, pkind, kw, listeners):
     k = orb.copy(form="keplerian")
     d = {"orbit": [float(x) for x in k], "epoch": str(orb.date), "propagator": pkind,
@@ -170,7 +249,7 @@ def run_stream(out, src, pkind, listeners, kw, desc, forward=True, propagate=Non
     # ---- chronological order of the whole stream
     for a, b in zip(stream, stream[1:]):
         if dirn * (b.date._mjd - a.date._mjd) < 0:
-            fam = fp + ("order" if forward else "backward-order")
+            fam = (fp + "order") if forward else "backward:order"
             out.fail(fam, "output stream is not in chronological order (in the direction of the iteration)",
                      dict(desc, at=[str(a.date), str(b.date)], events=[str(a.event.info) if a.event else None, str(b.event.info) if b.event else None]),
                      observed=f"{a.date} before {b.date}")
@@ -218,8 +297,13 @@ def run_stream(out, src, pkind, listeners, kw, desc, forward=True, propagate=Non
                          observed=str(ev.date), expected=[str(s0.date), str(s1.date)])
             # ---- sharp: the quantity changes sign within sharp_us microseconds before the event (iteration direction)
             if propagate is not None:
-                before = propagate(ev.date - dirn * sharp_us * US)
-                fb, fe = L(before), L(ev)
+                # (station-frame quantities carry ~1e-9 rad of rounding noise from the float date: any of the last
+                #  sharp_us microseconds may hold the sign change)
+                fe = L(ev)
+                for back in range(1, sharp_us + 1):
+                    fb = L(propagate(ev.date - dirn * back * US))
+                    if fb * fe <= 0:
+                        break
                 if not fb * fe <= 0:
                     out.fail(fp + ln + ":not-sharp", f"watched quantity does not change sign within {sharp_us} us of the event",
                              dict(desc, listener=ln, event=str(ev.date)), observed=[float(fb), float(fe)])
@@ -233,7 +317,7 @@ def run_stream(out, src, pkind, listeners, kw, desc, forward=True, propagate=Non
                 going_up = (v0 < 0) == forward
                 want = lab[0] if going_up else lab[1]
                 if ev.event.info != want:
-                    fam = fp + ln + (":label" if forward else ":backward-label")
+                    fam = (fp + ln + ":label") if forward else "backward:label:" + label_rule(L)
                     out.fail(fam, "event label does not match the direction of the crossing",
                              dict(desc, listener=ln, event=str(ev.date), values=[float(v0), float(v1)]), observed=ev.event.info, expected=want)
     out.count(key=(pkind, desc["epoch"], tuple(desc["listeners"]), desc.get("step")), nontrivial=nev > 0, kind=fam_prefix + pkind,
@@ -295,7 +379,7 @@ def check_closed_form(out, orb, blocks, L, kind, value, label, desc, tol=1e-3, f
     if not ok:
         extra = [t for t in g2 if not any(abs(t - x) <= tol for x in e2)]
         miss = [t for t in e2 if not any(abs(t - x) <= tol for x in g2)]
-        fam = f"closed-form:{ln}:" + ("spurious" if extra else "missed")
+        fam = f"closed-form:{ln.split('-')[0]}:" + ("spurious" if extra else "missed")
         out.fail(fam, f"reported {label or ln} events differ from the closed-form crossing times of the Keplerian motion (tol {tol} s)",
                  dict(desc, listener=ln, value=value), observed=g2[:8], expected=e2[:8], extra=extra[:4], missing=miss[:4])
 
@@ -346,119 +430,153 @@ def check_shadow(out, blocks, L, propagate, desc):
 
 # ------------------------------------------------------------------ the sweep
 
-def std_listeners(rng, orb, with_station=True):
-    from beyond.propagators import listeners as LS
-    Ls = [LS.NodeListener(), LS.ApsideListener(), LS.LightListener(), LS.LightListener(LS.LightListener.PENUMBRA)]
-    kind = rng.choice(["true", "mean", "eccentric", "aol"])
-    Ls.append(LS.AnomalyListener(rng.uniform(0, 2 * math.pi), kind))
+def gen_listeners(rng, o, with_station=True):
+    """JSON description of the listener list: [kind, params…] in the order they are handed to iter()"""
+    Ls = [["node"], ["apside"], ["light", "umbra"], ["light", "penumbra"],
+          ["anomaly", rng.uniform(0, 2 * math.pi), rng.choice(["true", "mean", "eccentric", "aol"])]]
     sta = None
     if with_station:
-        sta = make_station(rng, orb, mask=rng.random() < 0.5)
-        Ls.extend(LS.stations_listeners(sta))
-        Ls.append(LS.RadialVelocityListener(sta, sight=rng.random() < 0.5))
+        sta = gen_station(rng, o["kep"][2], mask=rng.random() < 0.5)
+        Ls += [["signal"], ["max"]] + ([["mask"]] if sta["mask"] else []) + [["radvel", rng.random() < 0.5]]
     rng.shuffle(Ls)
     return Ls, sta
 
 
-def pick_step(rng, orb):
-    """sampling step in seconds: between 1/200 and 1/25 of a period (anomaly listener guard needs < ~1.1 rad per step)"""
-    P = period(orb)
+def build_listeners(specs, sta):
+    from beyond.propagators import listeners as LS
+    out = []
+    for sp in specs:
+        k = sp[0]
+        if k == "node":
+            out.append(LS.NodeListener())
+        elif k == "apside":
+            out.append(LS.ApsideListener())
+        elif k == "light":
+            out.append(LS.LightListener(sp[1]))
+        elif k == "anomaly":
+            out.append(LS.AnomalyListener(sp[1], sp[2]))
+        elif k == "signal":
+            out.append(LS.StationSignalListener(sta))
+        elif k == "max":
+            out.append(LS.StationMaxListener(sta))
+        elif k == "mask":
+            out.append(LS.StationMaskListener(sta))
+        elif k == "radvel":
+            out.append(LS.RadialVelocityListener(sta, sight=sp[1]))
+        else:
+            raise ValueError(k)
+    return out
+
+
+def gen_step(rng, P):
+    """sampling step in seconds: between 1/200 and 1/25 of a period"""
     return round(rng.uniform(P / 200, P / 25), rng.choice([0, 3, 6]))
 
 
-def oracle_analytical(out, rng, kind, widen):
-    from datetime import timedelta
-    from beyond.propagators import listeners as LS
-    orb = make_orbit(rng, kind)
-    Ls, sta = std_listeners(rng, orb)
-    P = period(orb)
-    step = pick_step(rng, orb)
-    span = P * rng.uniform(1.0, 1.6)
-    start = orb.date + timedelta(seconds=rng.uniform(-0.5, 0.5) * P)
-    kw = dict(start=start, stop=timedelta(seconds=span), step=timedelta(seconds=step))
-    desc = describe(orb, "kepler-" + kind, kw, Ls)
-    stream, blocks = run_stream(out, orb, "analytical", Ls, kw, desc, propagate=orb.propagate)
-    # closed forms
-    for L in Ls:
-        if isinstance(L, LS.NodeListener):
-            check_closed_form(out, orb, blocks, L, "aol", 0.0, "Asc Node", desc)
-            check_closed_form(out, orb, blocks, L, "aol", math.pi, "Desc Node", desc)
-        elif isinstance(L, LS.ApsideListener):
-            check_closed_form(out, orb, blocks, L, "mean", 0.0, "Periapsis", desc)
-            check_closed_form(out, orb, blocks, L, "mean", math.pi, "Apoapsis", desc)
-        elif isinstance(L, LS.AnomalyListener):
-            check_closed_form(out, orb, blocks, L, L.anomaly, L.value, None, desc)
-        elif isinstance(L, LS.LightListener):
-            check_shadow(out, blocks, L, orb.propagate, desc)
-    # reuse of the same listener objects: identical stream
-    stream2 = list(orb.iter(listeners=Ls, **kw))
-    sig = lambda st: [(o.date._mjd, o.event.info if o.event else None) for o in st]
-    out.count(key=("reuse", desc["epoch"]), kind="reuse")
-    if sig(stream) != sig(stream2):
-        out.fail("analytical:reuse", "a second iteration with the same listener objects gives a different stream", desc,
-                 observed=len(stream2), expected=len(stream))
-    return orb, Ls, kw, desc
-
-
-def oracle_backward(out, rng, kind):
-    from datetime import timedelta
-    from beyond.propagators import listeners as LS
-    orb = make_orbit(rng, kind)
-    Ls, sta = std_listeners(rng, orb, with_station=False)
-    P = period(orb)
-    step = pick_step(rng, orb)
-    kw = dict(start=orb.date, stop=-timedelta(seconds=P * 1.3), step=-timedelta(seconds=step))
-    desc = describe(orb, "kepler-" + kind, kw, Ls)
-    run_stream(out, orb, "analytical", Ls, kw, desc, forward=False, propagate=orb.propagate)
-
-
-def oracle_ephem(out, rng, kind):
-    from datetime import timedelta
-    orb = make_orbit(rng, kind)
-    P = period(orb)
-    estep = P / rng.uniform(60, 120)
-    eph = orb.ephem(start=orb.date, stop=timedelta(seconds=1.5 * P), step=timedelta(seconds=estep))
-    Ls, sta = std_listeners(rng, orb)
-    mode = rng.choice(["nostep", "step", "dates"])
-    start = orb.date + timedelta(seconds=8 * estep)
-    stop = orb.date + timedelta(seconds=1.5 * P - 8 * estep)
-    if mode == "nostep":
-        kw = dict(start=start, stop=stop)
-    elif mode == "step":
-        kw = dict(start=start, stop=stop, step=timedelta(seconds=pick_step(rng, orb)))
+def gen_spec(rng, mode, kind):
+    o = gen_orbit(rng, kind)
+    P = kep_period(o)
+    sp = {"mode": mode, "orbit": o}
+    if mode == "analytical":
+        sp["listeners"], sp["station"] = gen_listeners(rng, o)
+        sp["start_s"], sp["span_s"], sp["step_s"] = rng.uniform(-0.5, 0.5) * P, P * rng.uniform(1.0, 1.6), gen_step(rng, P)
+    elif mode == "backward":
+        sp["listeners"], sp["station"] = gen_listeners(rng, o, with_station=kind == "leo")
+        sp["start_s"], sp["span_s"], sp["step_s"] = 0.0, -P * (2.5 if kind == "leo" else 1.3), -gen_step(rng, P)
+    elif mode == "ephem":
+        sp["listeners"], sp["station"] = gen_listeners(rng, o)
+        sp["estep_s"] = P / rng.uniform(60, 120)
+        sp["emode"] = rng.choice(["nostep", "step", "dates"])
+        sp["start_s"], sp["span_s"], sp["step_s"] = 8 * sp["estep_s"], 1.5 * P - 16 * sp["estep_s"], gen_step(rng, P)
+    elif mode == "numerical":
+        sp["listeners"], sp["station"] = gen_listeners(rng, o, with_station=False)
+        sp["nstep_s"] = P / 150
+        sp["start_s"], sp["span_s"], sp["step_s"] = 0.0, 1.2 * P, gen_step(rng, P)
+    elif mode == "visibility":
+        sp["listeners"], sp["station"] = [], gen_station(rng, o["kep"][2], mask=rng.random() < 0.5)
+        sp["start_s"], sp["span_s"], sp["step_s"] = 0.0, P * rng.uniform(2, 4), round(rng.uniform(30, 120), 3)
+    elif mode == "anomaly-large-step":
+        # sampling steps between 1.2 and 1.9 rad of anomaly: still < 2 rad, so every genuine crossing is seen by the guard
+        step = round(P * rng.uniform(1.2, 1.9) / (2 * math.pi), 3)
+        akind = sp_kind = rng.choice(["mean", "mean", "eccentric", "true", "aol"])
+        value = rng.uniform(0, 2 * math.pi)
+        if akind == "mean":
+            # deterministic: the 3rd sample sits 0.05 rad before the wrap-around of the watched difference
+            e, nu = o["kep"][1], o["kep"][5]
+            E = 2 * math.atan2(math.sqrt(1 - e) * math.sin(nu / 2), math.sqrt(1 + e) * math.cos(nu / 2))
+            M0 = E - e * math.sin(E)
+            value = (M0 + 2 * math.pi / P * 3 * step + 0.05 - math.pi) % (2 * math.pi)
+        sp["listeners"], sp["station"] = [["anomaly", value, sp_kind]], None
+        sp["start_s"], sp["span_s"], sp["step_s"] = 0.0, 4 * P, step
     else:
-        from beyond.dates import Date
-        kw = dict(dates=list(Date.range(start, stop, timedelta(seconds=pick_step(rng, orb)))))
-    desc = describe(orb, f"ephem-{mode}-" + kind, kw, Ls)
-    run_stream(out, eph, "ephem", Ls, kw, desc, propagate=eph.propagate)
+        raise ValueError(mode)
+    return sp
 
 
-def oracle_numerical(out, rng, kind):
+def run_spec(out, sp):
+    """evaluate every clause that applies to the described iteration; failures carry `sp` (replayable)"""
+    _setup()
     from datetime import timedelta
-    from beyond.propagators.keplernum import KeplerNum
-    from beyond.env.solarsystem import get_body
-    orb = make_orbit(rng, kind)
-    P = period(orb)
-    orb.propagator = KeplerNum(timedelta(seconds=P / 150), get_body("Earth"))
-    Ls, sta = std_listeners(rng, orb, with_station=False)
-    kw = dict(start=orb.date, stop=timedelta(seconds=1.2 * P), step=timedelta(seconds=pick_step(rng, orb)))
-    desc = describe(orb, "keplernum-" + kind, kw, Ls)
-    # the internal interpolating ephemeris is not reachable afterwards: sharpness is not re-evaluated here (it is for
-    # analytical and ephemeris sources); soundness/completeness/order/labels are
-    run_stream(out, orb, "numerical", Ls, kw, desc, propagate=None)
+    from beyond.dates import Date
+    from beyond.propagators import listeners as LS
+    mode = sp["mode"]
+    orb = build_orbit(sp["orbit"])
+    kind = sp["orbit"]["class"]
+    sta = build_station(sp["station"]) if sp.get("station") else None
+    Ls = build_listeners(sp["listeners"], sta)
+    start = orb.date + timedelta(seconds=sp["start_s"])
+    kw = dict(start=start, stop=timedelta(seconds=sp["span_s"]), step=timedelta(seconds=sp["step_s"]))
+    desc = {"spec": sp, "epoch": str(orb.date), "listeners": [lname(L) for L in Ls], "step": sp["step_s"]}
+    if mode in ("analytical", "backward", "anomaly-large-step"):
+        fwd = mode != "backward"
+        stream, blocks = run_stream(out, orb, "analytical", Ls, kw, desc, forward=fwd, propagate=orb.propagate)
+        if fwd:
+            for L in Ls:
+                if isinstance(L, LS.NodeListener):
+                    check_closed_form(out, orb, blocks, L, "aol", 0.0, "Asc Node", desc)
+                    check_closed_form(out, orb, blocks, L, "aol", math.pi, "Desc Node", desc)
+                elif isinstance(L, LS.ApsideListener):
+                    check_closed_form(out, orb, blocks, L, "mean", 0.0, "Periapsis", desc)
+                    check_closed_form(out, orb, blocks, L, "mean", math.pi, "Apoapsis", desc)
+                elif isinstance(L, LS.AnomalyListener):
+                    check_closed_form(out, orb, blocks, L, L.anomaly, L.value, None, desc)
+                elif isinstance(L, LS.LightListener):
+                    check_shadow(out, blocks, L, orb.propagate, desc)
+        if mode == "analytical":
+            # reuse of the same listener objects: identical stream
+            stream2 = list(orb.iter(listeners=Ls, **kw))
+            sig = lambda st: [(o.date._mjd, o.event.info if o.event else None) for o in st]
+            out.count(key=("reuse", desc["epoch"]), kind="reuse")
+            if sig(stream) != sig(stream2):
+                out.fail("analytical:reuse", "a second iteration with the same listener objects gives a different stream", desc,
+                         observed=len(stream2), expected=len(stream))
+    elif mode == "ephem":
+        eph = orb.ephem(start=orb.date, stop=timedelta(seconds=sp["span_s"] + 2 * sp["start_s"]), step=timedelta(seconds=sp["estep_s"]))
+        stop = start + timedelta(seconds=sp["span_s"])
+        if sp["emode"] == "nostep":
+            kw = dict(start=start, stop=stop)
+        elif sp["emode"] == "step":
+            kw = dict(start=start, stop=stop, step=timedelta(seconds=sp["step_s"]))
+        else:
+            kw = dict(dates=list(Date.range(start, stop, timedelta(seconds=sp["step_s"]))))
+        run_stream(out, eph, "ephem", Ls, kw, desc, propagate=eph.propagate)
+    elif mode == "numerical":
+        from beyond.propagators.keplernum import KeplerNum
+        from beyond.env.solarsystem import get_body
+        orb.propagator = KeplerNum(timedelta(seconds=sp["nstep_s"]), get_body("Earth"))
+        # the internal interpolating ephemeris is not reachable afterwards: sharpness is not re-evaluated here (it is for
+        # analytical and ephemeris sources); soundness / completeness / order / labels are
+        run_stream(out, orb, "numerical", Ls, kw, desc, propagate=None)
+    elif mode == "visibility":
+        check_visibility(out, orb, sta, kw, desc)
+    else:
+        raise ValueError(mode)
 
 
-def oracle_visibility(out, rng, kind):
+def check_visibility(out, orb, sta, kw, desc):
     """TopocentricFrame.visibility: exactly the above-horizon samples plus AOS/LOS/MAX (and mask) events"""
     from datetime import timedelta
     from beyond.propagators import listeners as LS
-    orb = make_orbit(rng, kind)
-    sta = make_station(rng, orb, mask=rng.random() < 0.5)
-    P = period(orb)
-    step = timedelta(seconds=round(rng.uniform(20, 120), 3))
-    kw = dict(start=orb.date, stop=timedelta(seconds=P * rng.uniform(3, 6)), step=step)
-    desc = describe(orb, "visibility-" + kind, kw, [])
-    desc["station"] = [float(x) for x in sta.latlonalt]
     got = list(sta.visibility(orb, events=True, **kw))
     # reference: all samples and all events from an explicit iteration with fresh station listeners
     Ls = LS.stations_listeners(sta)
@@ -486,7 +604,7 @@ def oracle_visibility(out, rng, kind):
                 out.fail("visibility:max-rate", "elevation rate at MAX is not zero", dict(desc, event=str(o.date)), observed=float(o.phi_dot))
     # a caller-owned listeners list, used twice
     mine = [LS.NodeListener()]
-    kw2 = dict(kw, stop=timedelta(seconds=P * 2))
+    kw2 = dict(kw, stop=timedelta(seconds=min(kw["stop"].total_seconds(), 1.2 * period(orb))))
     a = [(o.date._mjd, o.event.info if o.event else None) for o in sta.visibility(orb, events=True, listeners=mine, **kw2)]
     b = [(o.date._mjd, o.event.info if o.event else None) for o in sta.visibility(orb, events=True, listeners=mine, **kw2)]
     out.count(key=("vis-reuse", desc["epoch"]), nontrivial=any(x[1] for x in a), kind="visibility-reuse")
@@ -500,22 +618,32 @@ def oracle(ctx, widened):
     out = Outcome()
     rng = ctx.rng
     big = widened or ctx.thorough
-    kinds = ["leo", "leo", "meo", "gto", "molniya"]
-    for i in range(40 if big else 5):
-        oracle_analytical(out, rng, kinds[i % len(kinds)], big)
-    for i in range(20 if big else 2):
-        oracle_backward(out, rng, kinds[i % len(kinds)])
-    for i in range(20 if big else 3):
-        oracle_ephem(out, rng, kinds[(i + 1) % len(kinds)])
-    for i in range(10 if big else 1):
-        oracle_numerical(out, rng, kinds[i % len(kinds)])
-    for i in range(20 if big else 3):
-        oracle_visibility(out, rng, "leo")
+    kinds = ["leo", "molniya", "meo", "gto", "leo"]
+    plan = [("analytical", 60 if big else 4, 0), ("backward", 20 if big else 2, 0), ("ephem", 30 if big else 3, 1),
+            ("numerical", 15 if big else 1, 0), ("visibility", 20 if big else 2, None), ("anomaly-large-step", 20 if big else 2, None)]
+    for mode, n, off in plan:
+        for i in range(n):
+            kind = "leo" if off is None else kinds[(i + off) % len(kinds)]
+            run_spec(out, gen_spec(rng, mode, kind))
+    out.sample({"orbit": "random LEO/MEO/GTO/Molniya Keplerian orbits; Kepler, KeplerNum, Ephem sources; 8-9 listeners at once",
+                "checked": "order, event iff sign change and guard, between samples, sign change within 5 us, label vs direction, closed-form node/apsis/anomaly times (1 ms), conical shadow (0.01 s / 0.5 s), visibility stream"})
     return out
 
 
 def replay(f):
-    return Outcome()
+    out = Outcome()
+    inp = f["input"]
+    if isinstance(inp, dict) and "spec" in inp:
+        run_spec(out, inp["spec"])
+        # only the recorded family counts as a reproduction
+        out.failures = [x for x in out.failures if x["family"] == f["family"]]
+    elif isinstance(inp, dict) and "line" in inp:
+        env = _Env.get()
+        real = real_stream(env, inp["samples"], [tuple(x) for x in inp["specs"]], inp["mode"], inp["history"])
+        m = core.Driver().run([inp["line"]])[0]
+        if real != m:
+            out.fail(f["family"], f["what"], inp, observed=real, expected=m)
+    return out
 
 
 # =====================================================================================
@@ -1024,12 +1152,12 @@ def correspondence(ctx):
     env = _Env.get()
     rng = ctx.rng
     cases = []
-    for _ in range(ctx.n(500, 40000)):
+    for _ in range(ctx.n(2500, 150000)):
         cases.append(gen_case(rng))
     lines = [case_line(ts, specs) for ts, _, specs, _, _ in cases]
     # _bisect alone, on the real Speaker
     bis = []
-    for _ in range(ctx.n(300, 20000)):
+    for _ in range(ctx.n(1000, 50000)):
         b = rng.randrange(10**9)
         d = rng.choice([0, 1, -1, 2, -2, 3, -3, 5, 6, 7, -7, 1000, -999, 10**6 + 1, rng.randint(-10**8, 10**8)])
         P = gen_poly(rng, min(b, b + d), max(b, b + d), [b, b + d])
